@@ -42,6 +42,7 @@ func runC15(c *Ctx) {
 	c15StateWriters(c)
 	c14R6As(c, c.R.Rule("R7", "K6 (= C14.R6) a rename is reversible: pipeline.Service.Update frees the OLD name (read before the config is replaced) and reserves the new one — otherwise importing A → B → A, or rolling back a failed renaming import, is refused", 2))
 	c15R8(c)
+	rollbackSnapshotAs(c, c.R.Rule("R9", "K6/K3 (= C13.R10) a failed live apply leaves the old configuration: the config the in-place rollback re-imports is a snapshot exported before the desired config was committed", 3))
 }
 
 // c15R8: the exported config is a snapshot, not a view of the live instances.
